@@ -5,7 +5,12 @@ Legs: exhaustive TLC of both layers (MCSumTree); spec->impl replay of one behavi
 transition of the model's reachable graph on the real tree (all queries over all keys and
 key pairs, node dumps); impl->spec validation of recorded random histories by TLC
 (TraceSumTree, monitor form).  Every deviation is classified; known defects of the
-unchanged tree are reported through ctx.finding, anything else is a violation."""
+unchanged tree are reported through ctx.finding, anything else is a violation.
+
+Environment (development aids, not needed for a normal run):
+  VERIF_KNOWN_FINDINGS_EXTRA=<file>  additional known-finding entries (docs/findings_c16.json until merged)
+  VERIF_C16_KEEPEMPTY=1              judge a tree patched with docs/fix_c16_4.diff: childless nodes are legal,
+                                     behaviours are generated from the repaired model (Fix = AllFixes)"""
 import collections, concurrent.futures, json, os, time
 import vlib
 from vlib import Infra, Violation, log
@@ -56,6 +61,7 @@ KEYSETS = {
     "Keys5": [[], [1], [2], [3], [1, 0]],
     "Keys6": [[], [1], [2], [3], [4], [1, 0]],
     "Keys7": [[], [1], [2], [3], [4], [5], [1, 0]],
+    "Keys9": [[], [1], [2], [3], [4], [5], [6], [7], [1, 0]],
 }
 EXTRA_PROBES = [[0], [1, 1], [9]]
 NOREM = '"set", "inc", "dec", "open"'
@@ -174,8 +180,8 @@ def run_replay(ctx, binary, cov, devs):
     if q:
         gens = [(2, "Keys5", NODEC, 2), (3, "Keys6", NODEC, 1), (4, "Keys5", ALLOPS, 1), (1, "Keys4", NOREM, 1)]
     else:
-        gens = [(2, "Keys6", NODEC, 1), (2, "Keys5", ALLOPS, 2), (3, "Keys6", ALLOPS, 1), (3, "Keys7", NODEC, 1),
-                (4, "Keys6", ALLOPS, 1), (4, "Keys7", NODEC, 1), (5, "Keys7", NODEC, 1), (6, "Keys7", NODEC, 1),
+        gens = [(2, "Keys7", NODEC, 1), (2, "Keys5", ALLOPS, 2), (3, "Keys6", ALLOPS, 1), (3, "Keys9", NODEC, 1),
+                (4, "Keys6", ALLOPS, 1), (4, "Keys9", NODEC, 1), (5, "Keys7", NODEC, 1), (6, "Keys7", NODEC, 1),
                 (1, "Keys5", NOREM, 1)]
     tot = collections.Counter()
     states = trans = 0
